@@ -84,14 +84,19 @@ def h_detect(evtype: int, deleting: bool, has_fin: bool, old_none: bool, diff_em
     return vkopf.verdict(ok)
 
 
-def run_event(evtype, deleting, has_fin, handled, changed, with_delete, optional_delete, resume_deleted):
+def run_event(evtype, deleting, has_fin, handled, changed, with_delete, optional_delete, resume_deleted, bare=False):
+    """bare: the object has no spec at all, so its (handled) essence is the empty mapping."""
     obj_meta = {'annotations': {}}
     if deleting:
         obj_meta['deletionTimestamp'] = '2020-01-01T00:00:00Z'
     obj_meta['finalizers'] = [FIN, 'other/fin'] if has_fin else ['other/fin']
     if handled:
-        obj_meta['annotations'][LHC] = json.dumps({'spec': {'x': 1}}) + '\n'
+        obj_meta['annotations'][LHC] = (json.dumps({}) if bare else json.dumps({'spec': {'x': 1}})) + '\n'
     obj = base_body(spec={'x': 2 if changed else 1}, **obj_meta)
+    if bare:
+        del obj['spec']
+        if changed:
+            obj['spec'] = {'x': 2}          # the spec appears for the first time
     w = World(obj)
     calls = w.calls
 
@@ -118,7 +123,7 @@ def run_event(evtype, deleting, has_fin, handled, changed, with_delete, optional
 
 
 def h_event(evtype: int, deleting: bool, has_fin: bool, handled: bool, changed: bool, with_delete: bool,
-            optional_delete: bool, resume_deleted: bool) -> bool:
+            optional_delete: bool, resume_deleted: bool, bare: bool) -> bool:
     """
     pre: 0 <= evtype <= 3
     post: _ == True
@@ -128,7 +133,8 @@ def h_event(evtype: int, deleting: bool, has_fin: bool, handled: bool, changed: 
     if only is not None and evtype != only:
         return True
     try:
-        w, calls, rv = run_event(evtype, deleting, has_fin, handled, changed, with_delete, optional_delete, resume_deleted)
+        bare = vkopf.pin('bare', bare)
+        w, calls, rv = run_event(evtype, deleting, has_fin, handled, changed, with_delete, optional_delete, resume_deleted, bare)
     except (Deadlock, Diverged, Livelock):
         return vkopf.verdict(False)
     kinds = {k for k, _ in calls}
@@ -185,6 +191,8 @@ def h_event(evtype: int, deleting: bool, has_fin: bool, handled: bool, changed: 
 def obligations():
     obs = [Ob('h_detect', {}, timeout=300, twins=['reason_resume', 'reason_free', 'reason_update'])]
     for t in range(4):
-        obs.append(Ob('h_event', {'evtype': t}, timeout=1500, path_timeout=120,
-                      twins=(['delete_ran'] if t == 2 else ['resume_ran'] if t == 0 else [])))
+        obs.append(Ob('h_event', {'evtype': t, 'pin': {'bare': False}}, timeout=900, path_timeout=120))
+    for t in (0, 2):
+        obs.append(Ob('h_event', {'evtype': t, 'pin': {'bare': True}}, timeout=900, path_timeout=120))
+    obs.append(Ob('h_event', {}, timeout=600, path_timeout=120, twins=['delete_ran', 'resume_ran'], main=False))
     return obs
